@@ -29,6 +29,7 @@ func main() {
 	Register("containers", runContainers)
 	Register("run", runRun)
 	Register("yaml", runYAML)
+	Register("yamlcase", runYAMLCase)
 	Main()
 }
 
@@ -196,15 +197,15 @@ func readsBack(c *Ctx, what string, v any, out []byte, rng *Rng) {
 	dec.UseNumber()
 	var x any
 	if err := dec.Decode(&x); err != nil {
-		c.Violation("%s %s: output %s is not JSON: %v", what, SexpVal(v), Hexs(out), err)
+		c.Violation("%s %s :: output %s is not JSON: %v", what, SexpVal(v), Hexs(out), err)
 		return
 	}
 	if dec.More() {
-		c.Violation("%s %s: output %s has trailing data", what, SexpVal(v), Hexs(out))
+		c.Violation("%s %s :: output %s has trailing data", what, SexpVal(v), Hexs(out))
 		return
 	}
 	if !equalRead(x, v) {
-		c.Violation("%s %s: output %s reads back as a different value", what, SexpVal(v), Hexs(out))
+		c.Violation("%s %s :: output %s reads back as a different value", what, SexpVal(v), Hexs(out))
 	}
 }
 
@@ -244,7 +245,7 @@ func emitLib(c *Ctx, v any, rng *Rng, all bool) {
 	sv := sexp(v, rng)
 	bs, err := gojq.Marshal(v)
 	if err != nil {
-		c.Violation("Marshal %s: %v", SexpVal(v), err)
+		c.Violation("Marshal %s :: error %v", SexpVal(v), err)
 	}
 	c.Emit("(lib marshal %s %s %s)", sv, Hexs(bs), orc)
 	readsBack(c, "Marshal", v, bs, rng)
@@ -259,7 +260,7 @@ func emitLib(c *Ctx, v any, rng *Rng, all bool) {
 		res := run1(m.code, v)
 		s, ok := res.(string)
 		if !ok {
-			c.Violation("%s %s: result %s is not a string", m.name, SexpVal(v), SexpVal(res))
+			c.Violation("%s %s :: result %s is not a string", m.name, SexpVal(v), SexpVal(res))
 			continue
 		}
 		c.Emit("(lib %s %s %s %s)", m.name, sv, Hexs([]byte(s)), orc)
@@ -270,7 +271,7 @@ func emitLib(c *Ctx, v any, rng *Rng, all bool) {
 	}
 	// tojson|fromjson is the identity up to NaN->null, infinity saturation, U+FFFD replacement
 	if res := run1(cRound, v); !equalRead(res, v) {
-		c.Violation("tojson|fromjson %s: got %s", SexpVal(v), SexpVal(res))
+		c.Violation("tojson|fromjson %s :: got %s", SexpVal(v), SexpVal(res))
 	} else if all {
 		// the text and what fromjson read from it: the reference reader of the model is compared with it
 		s, _ := run1(cToJSON, v).(string)
@@ -312,7 +313,7 @@ type cliOpt struct {
 func emitCli(c *Ctx, v any, o cliOpt, rng *Rng) {
 	var buf bytes.Buffer
 	if err := cli.VerifC12Encode(v, o.tab, o.indent, o.nocolor, o.colors, &buf); err != nil {
-		c.Violation("cli encoder %+v %s: %v", o, SexpVal(v), err)
+		c.Violation("cli encoder %+v %s :: error %v", o, SexpVal(v), err)
 		return
 	}
 	cols := "default"
@@ -331,7 +332,7 @@ func emitCli(c *Ctx, v any, o cliOpt, rng *Rng) {
 	// all modes agree: without colour and insignificant whitespace the bytes are Marshal's
 	lib, _ := gojq.Marshal(v)
 	if got := stripWS(sgr.ReplaceAll(buf.Bytes(), nil)); !bytes.Equal(got, lib) {
-		c.Violation("cli encoder %+v %s: stripped output %s differs from Marshal %s", o, SexpVal(v), Hexs(got), Hexs(lib))
+		c.Violation("cli encoder %+v %s :: stripped output %s differs from Marshal %s", o, SexpVal(v), Hexs(got), Hexs(lib))
 	}
 }
 
@@ -631,7 +632,7 @@ func runFloats(c *Ctx) {
 		case math.IsNaN(f):
 			cls = "nan"
 			if string(bs) != "null" {
-				c.Violation("Marshal(NaN bits %d) = %s, want null", math.Float64bits(f), Hexs(bs))
+				c.Violation("Marshal (f %d) :: NaN printed as %s, want null", math.Float64bits(f), Hexs(bs))
 			}
 		default:
 			if math.IsInf(f, 0) {
@@ -643,7 +644,7 @@ func runFloats(c *Ctx) {
 			}
 			g, err := strconv.ParseFloat(string(bs), 64)
 			if err != nil || math.Float64bits(g) != math.Float64bits(clampF(f)) {
-				c.Violation("Marshal(float bits %d) = %s parses back as bits %d (%v)", math.Float64bits(f), Hexs(bs), math.Float64bits(g), err)
+				c.Violation("Marshal (f %d) :: printed %s parses back as bits %d (%v)", math.Float64bits(f), Hexs(bs), math.Float64bits(g), err)
 			}
 		}
 		c.Count("float:" + cls)
@@ -833,41 +834,233 @@ func runRun(c *Ctx) {
 }
 
 // --yaml-output then --yaml-input: go-yaml's encoder and decoder are outside /repo and not modelled; this
-// is an implementation-level round trip only.
+// is an implementation-level round trip only.  A failing value is shrunk to a minimal one so that the
+// reported case is canonical: "yaml indent=<default|n> value=<compact JSON>".
+func yamlRoundTrip(v any, ind []string) (ok bool, why string) {
+	in, _ := gojq.Marshal(v)
+	var want, y, back, errb bytes.Buffer
+	if rc := cli.VerifC12Run([]string{"-c", "-M", "."}, bytes.NewReader(in), &want, &errb); rc != 0 {
+		return false, "compact output failed: " + errb.String()
+	}
+	if rc := cli.VerifC12Run(append([]string{"--yaml-output"}, append(append([]string{}, ind...), ".")...), bytes.NewReader(in), &y, &errb); rc != 0 {
+		return false, "--yaml-output failed: " + errb.String()
+	}
+	if rc := cli.VerifC12Run([]string{"--yaml-input", "-c", "-M", "."}, bytes.NewReader(y.Bytes()), &back, &errb); rc != 0 {
+		return false, "--yaml-input of " + Hexs(y.Bytes()) + " failed: " + errb.String()
+	}
+	if !sameJSON(want.Bytes(), back.Bytes()) {
+		return false, "written as " + Hexs(y.Bytes()) + " reads back as " + Hexs(back.Bytes())
+	}
+	return true, ""
+}
+
+// smaller variants of a value, most aggressive first
+func shrinkCandidates(v any) []any {
+	var out []any
+	switch v := v.(type) {
+	case []any:
+		for _, x := range v {
+			out = append(out, x)
+		}
+		for i := range v {
+			w := append(append([]any{}, v[:i]...), v[i+1:]...)
+			out = append(out, w)
+		}
+		for i, x := range v {
+			for _, c := range shrinkCandidates(x) {
+				w := append([]any{}, v...)
+				w[i] = c
+				out = append(out, w)
+			}
+		}
+	case map[string]any:
+		keys := make([]string, 0, len(v))
+		for k := range v {
+			keys = append(keys, k)
+		}
+		sort.Strings(keys)
+		for _, k := range keys {
+			out = append(out, v[k])
+		}
+		for _, k := range keys {
+			w := map[string]any{}
+			for k2, x := range v {
+				if k2 != k {
+					w[k2] = x
+				}
+			}
+			out = append(out, w)
+		}
+		for _, k := range keys {
+			for _, c := range shrinkCandidates(v[k]) {
+				w := map[string]any{}
+				for k2, x := range v {
+					w[k2] = x
+				}
+				w[k] = c
+				out = append(out, w)
+			}
+			for _, c := range shrinkCandidates(k) {
+				k2, isStr := c.(string)
+				if !isStr {
+					continue
+				}
+				if _, dup := v[k2]; dup {
+					continue
+				}
+				w := map[string]any{}
+				for k3, x := range v {
+					if k3 != k {
+						w[k3] = x
+					}
+				}
+				w[k2] = v[k]
+				out = append(out, w)
+			}
+		}
+	case string:
+		rs := []rune(v)
+		out = append(out, nil)
+		for i := range rs {
+			out = append(out, string(append(append([]rune{}, rs[:i]...), rs[i+1:]...)))
+		}
+		for i, r := range rs {
+			if r != 'a' && r != '\n' && r != ' ' {
+				w := append([]rune{}, rs...)
+				w[i] = 'a'
+				out = append(out, string(w))
+			}
+		}
+	case nil:
+	default:
+		out = append(out, nil)
+	}
+	return out
+}
+
+var yamlIndents = [][]string{nil, {"--indent", "0"}, {"--indent", "1"}, {"--indent", "2"}, {"--indent", "3"}, {"--indent", "4"},
+	{"--indent", "5"}, {"--indent", "6"}, {"--indent", "7"}, {"--indent", "8"}, {"--indent", "9"}}
+
+func shrinkYAML(v any, ind []string) (any, []string) {
+	for round := 0; round < 3; round++ {
+		for steps := 0; steps < 2000; steps++ {
+			progressed := false
+			for _, c := range shrinkCandidates(v) {
+				if ok, _ := yamlRoundTrip(c, ind); !ok {
+					v, progressed = c, true
+					break
+				}
+			}
+			if !progressed {
+				break
+			}
+		}
+		for _, i := range yamlIndents {
+			if ok, _ := yamlRoundTrip(v, i); !ok {
+				ind = i
+				break
+			}
+		}
+	}
+	return v, ind
+}
+
+func yamlKey(v any, ind []string) string {
+	is := "default"
+	if ind != nil {
+		is = ind[1]
+	}
+	js, _ := gojq.Marshal(v)
+	return fmt.Sprintf("yaml indent=%s value=%s", is, js)
+}
+
+var (
+	reIndicator = regexp.MustCompile(`(?m)[|>][1-9][+-]?$`)
+	reTabLine   = regexp.MustCompile(`[|>][+-]?\n *\t`)
+)
+
+// yamlWitness maps a minimal failing value to the fixed witness of its family, judged by the YAML text the
+// implementation wrote for it: a block scalar with an explicit indentation indicator, or a block scalar whose
+// first line starts with a tab.
+func yamlWitness(v any, ind []string) (any, []string, bool) {
+	in, _ := gojq.Marshal(v)
+	var y, errb bytes.Buffer
+	if rc := cli.VerifC12Run(append([]string{"--yaml-output"}, append(append([]string{}, ind...), ".")...), bytes.NewReader(in), &y, &errb); rc != 0 {
+		return nil, nil, false
+	}
+	switch {
+	case reIndicator.Match(y.Bytes()):
+		return []any{"\na"}, []string{"--indent", "3"}, true
+	case reTabLine.Match(y.Bytes()):
+		return "\ta\n", nil, true
+	}
+	return nil, nil, false
+}
+
+// yamlcase <indent|default> <json>: replays one canonical YAML case on the implementation
+func runYAMLCase(c *Ctx) {
+	if len(c.Args) != 2 {
+		c.Violation("yamlcase :: usage: yamlcase <indent|default> <json>")
+		return
+	}
+	var ind []string
+	if c.Args[0] != "default" {
+		ind = []string{"--indent", c.Args[0]}
+	}
+	dec := json.NewDecoder(strings.NewReader(c.Args[1]))
+	dec.UseNumber()
+	var v any
+	if err := dec.Decode(&v); err != nil {
+		c.Violation("yamlcase :: value is not JSON: %v", err)
+		return
+	}
+	c.Nlines++
+	if ok, why := yamlRoundTrip(v, ind); !ok {
+		c.Violation("%s :: --yaml-output then --yaml-input does not give the value back: %s", yamlKey(v, ind), why)
+	}
+}
+
 func runYAML(c *Ctx) {
 	rng := c.Rng
 	g := genOpts{jsonable: true, maxDepth: 4, maxWidth: 4, strLen: 10}
 	vals := []any{nil, true, "", "a", "null", "~", "true", "1", "1.5", "1e3", "0x10", "yes", "- a", "a: b", "#c", " lead", "trail ", "multi\nline", "tab\there",
 		"\u00e9\u20ac\U0001F600", "\u2028", "\u0085", "\u00a0", "\ufeff", "'", "\"", "[1]", "{}", "---", "...", "|", ">", "!tag", "&a", "*a", "%d", "@x", "`x", "2001-01-01", "0o7", "1_000", ".inf", ".nan", "~x", "? a",
+		"\na", " a\nb", "a\n", "\n", "a\n\nb", "a \nb", "\ta\nb", "\ta\n", "\t\na",
 		[]any{}, map[string]any{}, []any{[]any{}, map[string]any{}}, map[string]any{"a": []any{json.Number("1"), json.Number("2.5"), nil, "x"}, "b": map[string]any{"": ""}},
 		json.Number("0"), json.Number("-1"), json.Number("123456789012"), json.Number("1.5"), json.Number("-0.25"), json.Number("1e100")}
+	// every sample string also as array element, member value and key, alone and inside an array
+	n0 := len(vals)
+	for _, v := range vals[:n0] {
+		if s, ok := v.(string); ok {
+			vals = append(vals, []any{s}, map[string]any{"k": s}, map[string]any{s: nil}, []any{map[string]any{"k": s}}, []any{map[string]any{s: nil}}, []any{[]any{s}})
+		}
+	}
 	for i := 0; i < c.N; i++ {
 		vals = append(vals, genValue(rng, g, 0))
 	}
+	seen := map[string]bool{}
 	for _, v := range vals {
-		in, _ := gojq.Marshal(v)
-		var want, y, back, errb bytes.Buffer
-		if rc := cli.VerifC12Run([]string{"-c", "-M", "."}, bytes.NewReader(in), &want, &errb); rc != 0 {
-			c.Violation("yaml: compact output of %s failed: %s", Hexs(in), errb.String())
-			continue
-		}
-		for _, ind := range [][]string{nil, {"--indent", "4"}} {
-			y.Reset()
-			back.Reset()
-			errb.Reset()
-			if rc := cli.VerifC12Run(append([]string{"--yaml-output"}, append(ind, ".")...), bytes.NewReader(in), &y, &errb); rc != 0 {
-				c.Violation("yaml: --yaml-output of %s failed: %s", Hexs(in), errb.String())
-				continue
-			}
-			if rc := cli.VerifC12Run([]string{"--yaml-input", "-c", "-M", "."}, bytes.NewReader(y.Bytes()), &back, &errb); rc != 0 {
-				c.Violation("yaml: --yaml-input of %s (from %s) failed: %s", Hexs(y.Bytes()), Hexs(in), errb.String())
-				continue
-			}
-			if !sameJSON(want.Bytes(), back.Bytes()) {
-				c.Violation("yaml: %s written as %s reads back as %s", Hexs(in), Hexs(y.Bytes()), Hexs(back.Bytes()))
-			}
+		for _, ind := range [][]string{nil, {"--indent", "3"}, {"--indent", "1"}, {"--indent", "8"}} {
 			c.Count("yaml")
 			c.Nlines++
+			if ok, _ := yamlRoundTrip(v, ind); ok {
+				continue
+			}
+			mv, mind := shrinkYAML(v, ind)
+			_, why := yamlRoundTrip(mv, mind)
+			key := yamlKey(mv, mind)
+			local := ""
+			// a local minimum of a family with a fixed witness is reported through the witness, if that fails too
+			if w, wind, ok := yamlWitness(mv, mind); ok {
+				if wok, wwhy := yamlRoundTrip(w, wind); !wok {
+					local = " (local minimum: " + key + ")"
+					key, why = yamlKey(w, wind), wwhy
+				}
+			}
+			if !seen[key] {
+				seen[key] = true
+				c.Violation("%s :: --yaml-output then --yaml-input does not give the value back%s: %s", key, local, why)
+			}
 		}
 	}
 }
